@@ -23,3 +23,6 @@ impl<'a, T: 'a> VpChain<'a, T> for std::vec::IntoIter<&'a T> {
     fn vp_chain(self, o: core::slice::Iter<'a, T>) -> (r: std::vec::IntoIter<&'a T>)
     { self.chain(o).collect::<Vec<_>>().into_iter() }
 }
+/// `Box::as_ref` (AsRef<T> for Box<T>): the boxed value
+pub assume_specification<T: ?Sized, A: std::alloc::Allocator>[ <Box<T, A> as AsRef<T>>::as_ref ](b: &Box<T, A>) -> (r: &T)
+    ensures r == &**b;
